@@ -8,7 +8,7 @@ Import ListNotations.
 (* _array (N slots), _elements (block id, 0 = nullptr) with that block's slots, _size, _capacity *)
 Record svec := mk_sv { s_inl : buf; s_blk : nat; s_heap : buf; s_size : nat; s_cap : nat }.
 
-Record sst := mk_sst { sregs : nat -> svec; snextb : nat }.
+Record sst := mk_sst { sregs : nat -> svec; sals : nat -> nat; snextb : nat }.
 
 Section WithParams.
 Variable esz : N.      (* sizeof(T) *)
@@ -17,7 +17,7 @@ Variable NI : nat.     (* the template parameter N *)
 (* small_vector(Allocator): _elements(nullptr), _size(0), _capacity(N); the inline bytes are whatever
    the storage holds (all raw for a fresh object) *)
 Definition sv_empty (inl0 : buf) : svec := mk_sv inl0 0 [] 0 NI.
-Definition sst0 : sst := mk_sst (fun _ => sv_empty (repeat None NI)) 1.
+Definition sst0 : sst := mk_sst (fun _ => sv_empty (repeat None NI)) (fun r => Nat.min r (NINST - 1)) 1.
 
 Definition is_small (v : svec) : bool := Nat.leb (s_cap v) NI.
 (* _get_container() *)
@@ -29,19 +29,20 @@ Definition set_cont (v : svec) (c : buf) : svec :=
 Definition set_size (v : svec) (n : nat) : svec := mk_sv (s_inl v) (s_blk v) (s_heap v) n (s_cap v).
 
 (* _ensure_capacity(c), small_vector.hpp:163-181 *)
-Definition sv_ensure_capacity (nb base c : nat) (v : svec) : res (svec * nat * list ev) :=
+Definition sv_ensure_capacity (al nb base c : nat) (v : svec) : res (svec * nat * list ev) :=
   if Nat.leb c (s_cap v) then Ok (v, nb, []) else
   let ncap := 2 * c in
+  let nblk := enc al nb in
   (* small_vector.hpp:170  for(size_t i = 0; i < _size; i++) *)
-  bind (xfer_loop (s_size v) 0 (cont_nm base v) (heap_nm nb) (cont v) (repeat None ncap)) (fun '(d, e1) =>
+  bind (xfer_loop (s_size v) 0 (cont_nm base v) (heap_nm nblk) (cont v) (repeat None ncap)) (fun '(d, e1) =>
   bind (destroy_loop (s_size v) 0 (cont_nm base v) (cont v)) (fun '(c', e2) =>
   let v' := set_cont v c' in
-  Ok (mk_sv (s_inl v') nb d (s_size v) ncap, S nb,
-      EAlloc nb (esz * N.of_nat ncap) :: e1 ++ e2 ++ free_ev (s_blk v)))).
+  Ok (mk_sv (s_inl v') nblk d (s_size v) ncap, S nb,
+      EAlloc nblk (esz * N.of_nat ncap) :: e1 ++ e2 ++ free_ev al (s_blk v)))).
 
 (* push_back(const T&) / push_back(T&&) / emplace_back(args) *)
-Definition sv_push (nb base : nat) (x : V) (v : svec) : res (svec * nat * list ev) :=
-  bind (sv_ensure_capacity nb base (s_size v + 1) v) (fun '(v1, nb1, e1) =>
+Definition sv_push (al nb base : nat) (x : V) (v : svec) : res (svec * nat * list ev) :=
+  bind (sv_ensure_capacity al nb base (s_size v + 1) v) (fun '(v1, nb1, e1) =>
   bind (construct (cont v1) (s_size v1) x) (fun c =>
   Ok (set_size (set_cont v1 c) (S (s_size v1)), nb1, e1 ++ [EConstruct (cont_nm base v1 (s_size v1))]))).
 
@@ -55,22 +56,22 @@ Definition sv_pop (base : nat) (v : svec) : res (svec * list ev) :=
   end.
 
 (* resize(new_size, args...) *)
-Definition sv_resize (nb base n : nat) (x : V) (v : svec) : res (svec * nat * list ev) :=
-  bind (sv_ensure_capacity nb base n v) (fun '(v1, nb1, e1) =>
+Definition sv_resize (al nb base n : nat) (x : V) (v : svec) : res (svec * nat * list ev) :=
+  bind (sv_ensure_capacity al nb base n v) (fun '(v1, nb1, e1) =>
   bind (if Nat.ltb n (s_size v1)
         then destroy_loop (s_size v1 - n) n (cont_nm base v1) (cont v1)
         else fill_loop (n - s_size v1) (s_size v1) (cont_nm base v1) (cont v1) x) (fun '(c, e2) =>
   Ok (set_size (set_cont v1 c) n, nb1, e1 ++ e2))).
 
 (* ~small_vector(): returns the state of the inline storage afterwards *)
-Definition sv_destruct (base : nat) (v : svec) : res (buf * list ev) :=
+Definition sv_destruct (al base : nat) (v : svec) : res (buf * list ev) :=
   bind (destroy_loop (s_size v) 0 (cont_nm base v) (cont v)) (fun '(c, e) =>
   Ok (s_inl (set_cont v c),
-      e ++ (if is_small v then [] else [EDealloc (s_blk v) (esz * N.of_nat (s_cap v))]))).
+      e ++ (if is_small v then [] else [EDealloc (reenc al (s_blk v)) (esz * N.of_nat (s_cap v))]))).
 
 (* small_vector(const small_vector &other) constructed into storage whose inline slots are [inl] *)
-Definition sv_copy_ctor (nb base obase : nat) (inl0 : buf) (o : svec) : res (svec * nat * list ev) :=
-  bind (sv_ensure_capacity nb base (s_size o) (sv_empty inl0)) (fun '(v1, nb1, e1) =>
+Definition sv_copy_ctor (al nb base obase : nat) (inl0 : buf) (o : svec) : res (svec * nat * list ev) :=
+  bind (sv_ensure_capacity al nb base (s_size o) (sv_empty inl0)) (fun '(v1, nb1, e1) =>
   bind (xfer_loop (s_size o) 0 (cont_nm obase o) (cont_nm base v1) (cont o) (cont v1)) (fun '(c, e2) =>
   Ok (set_size (set_cont v1 c) (s_size o), nb1, e1 ++ e2))).
 
@@ -132,32 +133,35 @@ Inductive sop :=
 
 Definition base_of (r : nat) : nat := r * NI.
 
+(* The allocator travels with the heap block: swap() exchanges _allocator, copy and move construction start from
+   small_vector(other._allocator). *)
 Definition sstep (st : sst) (o : sop) : res (sst * out * list ev) :=
   let rg := sregs st in
+  let al := sals st in
   match o with
   | SPush r x | SPushMove r x | SEmplace r x =>
-    bind (sv_push (snextb st) (base_of r) x (rg r)) (fun '(v, nb, e) => Ok (mk_sst (set_reg rg r v) nb, OUnit, e))
+    bind (sv_push (al r) (snextb st) (base_of r) x (rg r)) (fun '(v, nb, e) => Ok (mk_sst (set_reg rg r v) al nb, OUnit, e))
   | SPop r =>
-    bind (sv_pop (base_of r) (rg r)) (fun '(v, e) => Ok (mk_sst (set_reg rg r v) (snextb st), OUnit, e))
+    bind (sv_pop (base_of r) (rg r)) (fun '(v, e) => Ok (mk_sst (set_reg rg r v) al (snextb st), OUnit, e))
   | SResize r n x =>
-    bind (sv_resize (snextb st) (base_of r) n x (rg r)) (fun '(v, nb, e) => Ok (mk_sst (set_reg rg r v) nb, OUnit, e))
+    bind (sv_resize (al r) (snextb st) (base_of r) n x (rg r)) (fun '(v, nb, e) => Ok (mk_sst (set_reg rg r v) al nb, OUnit, e))
   | SFront r => bind (sv_front (rg r)) (fun x => Ok (st, OVal x, []))
   | SBack r => bind (sv_back (rg r)) (fun x => Ok (st, OVal x, []))
   | SIndex r i => bind (sv_index (rg r) i) (fun x => Ok (st, OVal x, []))
   | SCopyCtor r s =>
     if Nat.eqb r s then Ok (st, OUnit, []) else
-    bind (sv_destruct (base_of r) (rg r)) (fun '(inl0, e1) =>
-    bind (sv_copy_ctor (snextb st) (base_of r) (base_of s) inl0 (rg s)) (fun '(v, nb, e2) =>
-    Ok (mk_sst (set_reg rg r v) nb, OUnit, e1 ++ e2)))
+    bind (sv_destruct (al r) (base_of r) (rg r)) (fun '(inl0, e1) =>
+    bind (sv_copy_ctor (al s) (snextb st) (base_of r) (base_of s) inl0 (rg s)) (fun '(v, nb, e2) =>
+    Ok (mk_sst (set_reg rg r v) (set_reg al r (al s)) nb, OUnit, e1 ++ e2)))
   | SMoveCtor r s =>
     if Nat.eqb r s then Ok (st, OUnit, []) else
-    bind (sv_destruct (base_of r) (rg r)) (fun '(inl0, e1) =>
+    bind (sv_destruct (al r) (base_of r) (rg r)) (fun '(inl0, e1) =>
     bind (sv_swap (base_of r) (base_of s) (sv_empty inl0) (rg s)) (fun '(a, b, e2) =>
-    Ok (mk_sst (set_reg (set_reg rg r a) s b) (snextb st), OUnit, e1 ++ e2)))
+    Ok (mk_sst (set_reg (set_reg rg r a) s b) (set_reg al r (al s)) (snextb st), OUnit, e1 ++ e2)))
   | SSwap r s =>
     if Nat.eqb r s then Ok (st, OUnit, []) else        (* if(&a == &b) return; *)
     bind (sv_swap (base_of r) (base_of s) (rg r) (rg s)) (fun '(a, b, e) =>
-    Ok (mk_sst (set_reg (set_reg rg r a) s b) (snextb st), OUnit, e))
+    Ok (mk_sst (set_reg (set_reg rg r a) s b) (set_reg (set_reg al r (al s)) s (al r)) (snextb st), OUnit, e))
   end.
 
 Fixpoint srun (st : sst) (ops : list sop) : res (sst * list out * list ev) :=
@@ -168,12 +172,12 @@ Fixpoint srun (st : sst) (ops : list sop) : res (sst * list out * list ev) :=
     bind (srun st1 r) (fun '(st2, xs, e2) => Ok (st2, x :: xs, e1 ++ e2)))
   end.
 
-Fixpoint sv_destruct_regs (rg : nat -> svec) (k n : nat) : res (list ev) :=
+Fixpoint sv_destruct_regs (rg : nat -> svec) (al : nat -> nat) (k n : nat) : res (list ev) :=
   match n with
   | O => Ok []
-  | S m => bind (sv_destruct (base_of k) (rg k)) (fun '(_, e1) =>
-           bind (sv_destruct_regs rg (S k) m) (fun e2 => Ok (e1 ++ e2)))
+  | S m => bind (sv_destruct (al k) (base_of k) (rg k)) (fun '(_, e1) =>
+           bind (sv_destruct_regs rg al (S k) m) (fun e2 => Ok (e1 ++ e2)))
   end.
-Definition sfinish (st : sst) : res (list ev) := sv_destruct_regs (sregs st) 0 nregs.
+Definition sfinish (st : sst) : res (list ev) := sv_destruct_regs (sregs st) (sals st) 0 nregs.
 
 End WithParams.
